@@ -247,6 +247,7 @@ func (e *Engine) RunHarness(cfg *HarnessCfg, nValidate int) (res *HarnessResult)
 			e.stats.Done++
 		case endPanic:
 			e.stats.Panics++
+			e.stats.Stubs["panic@"+end.site+": "+end.msg]++
 		case endInfeasible:
 			e.stats.Infeasible++
 		case endInconclusive:
@@ -317,7 +318,7 @@ func (e *Engine) RunHarness(cfg *HarnessCfg, nValidate int) (res *HarnessResult)
 	res.WallS = time.Since(t0).Seconds()
 	s := e.solver.Stats
 	res.Solver = SolverStats{Queries: s.Queries - startStats.Queries, Sat: s.Sat - startStats.Sat, Unsat: s.Unsat - startStats.Unsat,
-		Unknown: s.Unknown - startStats.Unknown, TimeS: s.TimeS - startStats.TimeS, MaxMs: s.MaxMs}
+		Unknown: s.Unknown - startStats.Unknown, TimeS: s.TimeS - startStats.TimeS, MaxMs: s.MaxMs, Errors: s.Errors - startStats.Errors}
 	e.p = nil
 	return res
 }
